@@ -115,6 +115,28 @@ def run(rep, props, replay=None):
         if np.max(np.abs(pfit - yhat)) > 1e-10 * sc:
             rep.violation("PSplines.predict at the fitting grid differs from y_hat", info)
         compare(rep, "PSplines.predict", lambda S: ps.predict(np.asarray(S, float)), Q, subs, sc, info)
+        # ... with observation weights, and for a surface (n-D fit): evaluating at the sampling points returns the fitted values
+        wts = np.round(rng.uniform(0.25, 2.0, size=m) * 16) / 16
+        g2 = a + (b - a) * np.linspace(0, 1, 6)
+        Y2 = np.round((np.outer(np.sin(3 * u), np.cos(2 * np.linspace(0, 1, 6))) + 0.1 * rng.normal(size=(m, 6))) * 256) / 256
+        W2 = np.round(rng.uniform(0.25, 2.0, size=(m, 6)) * 16) / 16
+        W2[0, 0] = 0.0
+        with warnings.catch_warnings():
+            warnings.simplefilter("ignore")
+            try:
+                pw = PSplines(n_segments=nseg, degree=deg)
+                pw.fit(X[0], grid, sample_weights=wts, penalty=1.0)
+                d1 = float(np.max(np.abs(np.asarray(pw.predict(grid), float) - np.asarray(pw.y_hat, float))))
+                p2 = PSplines(n_segments=np.array([nseg, 2]), degree=np.array([deg, 2]))
+                p2.fit(Y2, [grid, g2], sample_weights=W2, penalty=(1.0, 0.5))
+                d2 = float(np.max(np.abs(np.asarray(p2.predict([grid, g2]), float) - np.asarray(p2.y_hat, float))))
+            except Exception as e:  # noqa: BLE001
+                rep.violation(f"weighted PSplines fit / predict raised {type(e).__name__}: {e}"[:300], info)
+                d1 = d2 = 0.0
+        rep.case(("ps-weighted-predict", key[2][:8]), kind="PSplines.predict/weighted-at-fit-grid")
+        if d1 > 1e-9 * sc or d2 > 1e-9 * max(1.0, float(np.max(np.abs(Y2)))):
+            rep.violation(f"weighted P-spline fit: predict at the sampling points differs from the fitted values (1-D: {d1:.3g}, 2-D: {d2:.3g})",
+                          {**info, "weights_1d": C.hexf(wts), "Y2": C.hexf(Y2), "W2": C.hexf(W2), "grid2": C.hexf(g2)})
         for name, S in [("full", Q)] + subs[:5]:
             with warnings.catch_warnings():
                 warnings.simplefilter("ignore")
